@@ -72,13 +72,9 @@ package setec
 //@   ensures true
 //@ func do(ctx, c, path, req) (resp, err)
 //@   ensures true
-//@ func (*Fields).Secrets(f) (out)
-//@   ensures true
 //@ func (*Fields).Apply(f, ctx, s) (err)
 //@   ensures true
 //@ func (fieldInfo).apply(f, ctx, s, fullName) (err)
-//@   ensures true
-//@ func parseFields(obj) (fi, err)
 //@   ensures true
 
 // ---- cache ---------------------------------------------------------------------------------
@@ -238,5 +234,21 @@ package setec
 //@     progress [C10 init.returns-when-context-ends] missing == iterstart(missing) || ctxErrAt(ctx, clock) == nil
 
 //@ func (StoreConfig).secretNames(c) (sec, svs, err)
+//@   loop 0
+//@     invariant [prefix] len(sec) >= len(c.Secrets) && (forall i int :: (0 <= i && i < len(c.Secrets)) ==> sec[i] == c.Secrets[i])
+//@   loop 1
+//@     invariant [nonempty] forall j int :: (0 <= j && j < iter) ==> sec[j] != ""
 //@   ensures [C10 names.nonempty-distinct] err == nil ==> ((forall j int :: (0 <= j && j < len(sec)) ==> sec[j] != "") && (forall i int, j int :: (0 <= i && i < j && j < len(sec)) ==> sec[i] != sec[j]))
 //@   ensures [C10,C20 names.listed-included] err == nil ==> (forall i int :: (0 <= i && i < len(c.Secrets)) ==> (exists j int :: 0 <= j && j < len(sec) && sec[j] == c.Secrets[i]))
+
+// ---- struct-tag plumbing -------------------------------------------------------------------
+//@ func parseFields(obj) (fi, err)
+//@   ensures [C20 parse.nil-rejected] obj == nil ==> err != nil
+//@   ensures [C20 parse.fail-empty] err != nil ==> len(fi) == 0
+//@ func ParseFields(v, namePrefix) (fs, err)
+//@   ensures [C20 parsefields.result] (err == nil ==> (fs != nil && allocated(fs) && fs.prefix == namePrefix && len(fs.fields) > 0)) && (err != nil ==> fs == nil)
+//@ func (*Fields).Secrets(f) (out)
+//@   requires f != nil
+//@   ensures [C20 secrets.names] len(out) == len(f.fields) && (forall i int :: (0 <= i && i < len(f.fields)) ==> out[i] == pathJoin2(f.prefix, f.fields[i].secretName))
+//@   loop 0
+//@     invariant [named] (forall i int :: (0 <= i && i < iter) ==> out[i] == pathJoin2(f.prefix, f.fields[i].secretName)) && len(out) == len(f.fields) && iter <= len(f.fields)
